@@ -723,19 +723,34 @@ ComponentNameMap createComponentNamesMap(const ComponentPtr &component)
     return nameMap;
 }
 
-std::vector<UnitsPtr> referencedUnits(const ModelPtr &model, const UnitsPtr &units)
+static void collectReferencedUnits(const ModelPtr &model, const UnitsPtr &units, std::vector<UnitsPtr> &path, std::vector<UnitsPtr> &requiredUnits)
 {
-    std::vector<UnitsPtr> requiredUnits;
+    // Units that reference each other in a cycle (an invalid model) must not be followed forever.
+    if (std::find(path.begin(), path.end(), units) != path.end()) {
+        return;
+    }
+    path.push_back(units);
 
     for (size_t index = 0; index < units->unitCount(); ++index) {
         const std::string ref = units->unitAttributeReference(index);
         if (!isStandardUnitName(ref)) {
             auto refUnits = model->units(ref);
-            auto requiredUnitsUnits = referencedUnits(model, refUnits);
-            requiredUnits.insert(requiredUnits.end(), requiredUnitsUnits.begin(), requiredUnitsUnits.end());
-            requiredUnits.push_back(refUnits);
+            if (refUnits != nullptr) {
+                collectReferencedUnits(model, refUnits, path, requiredUnits);
+                requiredUnits.push_back(refUnits);
+            }
         }
     }
+
+    path.pop_back();
+}
+
+std::vector<UnitsPtr> referencedUnits(const ModelPtr &model, const UnitsPtr &units)
+{
+    std::vector<UnitsPtr> requiredUnits;
+    std::vector<UnitsPtr> path;
+
+    collectReferencedUnits(model, units, path, requiredUnits);
 
     return requiredUnits;
 }
